@@ -487,7 +487,10 @@ func VerifFaultRetry() {
 		renv = vNewEnvOver(env.model)
 		applied = 0
 	}
-	rsp2, err2 := vStep(renv, sc, "t2", reqs, false)
+	// "the same request": a client that repeats a request repeats its transaction id too
+	// (retryid 1), or issues a fresh one (0)
+	rid := []string{"t2", "t1"}[verifrt.Choice("fault.retryid", 2)]
+	rsp2, err2 := vStep(renv, sc, rid, reqs, false)
 	verifrt.Reach("retried")
 	verifrt.Assert(err2 == nil, lbl+"-accepted")
 	if err2 != nil || vHasErrors(rsp2) {
